@@ -122,6 +122,19 @@ CHECKS = {
    note='Trusted: z3, the abstract-basis contract (= C02), ratnorm (division clearing; inputs with a vanishing divisor are outside the claim), symnp/symsparse, reals for doubles. '
         'Bound: degrees 1-2 / 2-4 dofs per axis in the abstract basis, 1-2 nodes per axis; larger NURBS binary operations at coefficient level.',
    technique='symbolic execution of real Python source on an abstract basis + z3 (polynomial identities after division clearing, NRA for arcs)'),
+ 'C09': dict(
+   category='other', design_ref='4/C09',
+   text='Bounded symbolic verification: the 1D Galerkin assembly routines of assemble.py (element matrices, COO index construction, symmetric and two-space variants, '
+        'custom quadrature grids, weight functions), quadrature.py, the Kronecker paths, inner_products/integrate, the closed-form 2x2/3x3 determinants and inverses '
+        '(transliterated Cython) and the boundary-Jacobian restriction are executed on symbolic data. With arbitrary nodes/weights z3 proves that every matrix entry is the '
+        'quadrature sum of the products of the Cox-de Boor basis derivatives (first-active index arithmetic for every listed multiplicity pattern); with the Gauss-Legendre '
+        'rule given by its exact algebraic values (defining equations of the radicals, q <= 5) z3 proves that each entry with the default node count equals the exact rational '
+        'integral of the piecewise polynomial, that mass entries sum to the interval length and that constants are in the kernel of the stiffness matrix; Kronecker paths equal '
+        'the Kronecker sums in the documented axis order; load vectors/integrals equal the weighted sums with |det J| for all function values, Jacobians and collocation entries; '
+        'X Y = I and det = Leibniz for all nonsingular 2x2/3x3 matrices; boundary normals are orthogonal to the face and point outward whenever det J > 0.',
+   note='Trusted: z3, exact rational reference integrals (own code), the algebraic form of the Gauss-Legendre rule (numpy delivers its rounding), symnp/symsparse, reals for doubles. '
+        'Knot vectors are concrete (dyadic) and enumerated; data are symbolic. Not applicable part: the low-rank fast assembler (C++).',
+   technique='symbolic execution of real Python/Cython source + z3 (polynomial identities; algebraic Gauss nodes via defining equations)'),
 }
 
 NA = {
